@@ -43,6 +43,7 @@ CASE_CPU_S = 40                 # in-process cases: far above 20*timeout+2 s for
 CPU_SIGNATURE = "resource:cpu-bound-exceeded:in-process"
 RULE += " Added after the seeded rounds: " + 'Every case may carry `pre`: the same or other expressions evaluated first by fresh engines, so a result that depends on what the process evaluated before is found and reproducible from the replay file.'
 RULE += " Text-scan bombs (an opener followed by a long pump of one or two characters, never closed) are part of the sandboxed bomb grammar (40 quick / 990 thorough) and, with pumps up to 150, of the generated raw texts; an in-process evaluation that burns 40 s of CPU is reported through the runner's per-case CPU guard."
+RULE += ' Further bomb families, all sandboxed: every allow-listed callable (read from the live table) with huge / hugely negative / long arguments and as key= of max/min (320 quick, 1120 thorough); nested repetition (a million references to one big list) under comparisons and aggregates; function-valued arguments over long lists; results that are cheap to compute but cannot be rendered (ints beyond the int->str digit limit) through metabolize, digest_glucose and the agent; and about one generated case in 200 is drawn from a bomb grammar (big atoms x nested repetition x every allow-listed callable, also as key=, x comparisons / aggregates / arithmetic / round with huge digit counts). The function-table audit accepts a _bounded_<f> wrapper only if it refers to nothing but arithmetic helpers and limits and agrees with <f> on a grid of ordinary arguments (a ValueError refusal being its one liberty).'
 
 ALLOWED_NODES = (ast.Constant, ast.BinOp, ast.UnaryOp, ast.BoolOp, ast.Compare, ast.IfExp, ast.List, ast.Tuple, ast.Name, ast.Call)
 ALLOWED_BINOPS = (ast.Add, ast.Sub, ast.Mult, ast.Div, ast.FloorDiv, ast.Mod, ast.Pow)
@@ -185,7 +186,58 @@ _RAW = st.one_of(
 )
 
 
+_BK = ["3", "5", "6", "7", "9", "30000", "99999"]
+
+
+@st.composite
+def _bomb_expr(draw, depth=0):
+    """grammar of resource bombs: big atoms x repetition (nested) x every allow-listed callable (also as key=) x comparisons, aggregates, arithmetic"""
+    from operon_ai.organelles.mitochondria import Mitochondria
+    fun = sorted(k for k, v in Mitochondria.SAFE_FUNCTIONS.items() if callable(v))
+    sub = lambda: draw(_bomb_expr(depth + 1))      # noqa: E731
+    K = draw(st.sampled_from(_BK))
+    k = draw(st.integers(0, 15 if depth < 3 else 5))
+    if k == 0:
+        return draw(st.sampled_from(["0", "1", "7", "1.5", "-3", "'ab'", "True", "10**%s" % K, "9**%s" % K, "2**%s" % K, "7**35000",
+                                     "factorial(20)", "factorial(4000)", "factorial(5000)", "factorial(5001)", "factorial(10**6)"]))
+    if k == 1:
+        return "10**%s" % K
+    if k == 2:
+        return "[%s]*10**%s" % (sub(), draw(st.sampled_from(["2", "3", "5", "6", "7"])))
+    if k == 3:
+        return "(%s,)*10**%s" % (sub(), draw(st.sampled_from(["2", "3", "5", "6"])))
+    if k == 4:
+        return "'%s'*10**%s" % (draw(st.sampled_from(["a", "ab", "9"])), draw(st.sampled_from(["3", "5", "6", "7"])))
+    if k == 5:
+        return draw(st.sampled_from(["0", "1", "2.5", "(-1)", "'x'", "[1, 2]", "(1, 2)", "[]", "''"]))
+    if k == 6:
+        return "%s(%s)" % (draw(st.sampled_from(fun)), sub())
+    if k == 7:
+        return "%s(%s, %s)" % (draw(st.sampled_from(fun)), sub(), sub())
+    if k == 8:
+        return "%s(%s, key=%s)" % (draw(st.sampled_from(["max", "min"])), sub(), draw(st.sampled_from(fun)))
+    if k == 9:
+        return "(%s %s %s)" % (sub(), draw(st.sampled_from(["==", "<", "!=", ">=", "+", "*", "-", "//", "%", "**", "/"])), sub())
+    if k == 10:
+        return "sum(%s, %s)" % (sub(), draw(st.sampled_from(["[]", "()", "0", "''", "0.0"])))
+    if k == 11:
+        return "round(%s, %s)" % (sub(), draw(st.sampled_from(["-10**%s" % K, "10**%s" % K, "-5", "2"])))
+    if k == 12:
+        return "[%s, %s]" % (sub(), sub())
+    if k == 13:
+        return "(%s if %s else %s)" % (sub(), sub(), sub())
+    if k == 14:
+        return "(%s and %s)" % (sub(), sub())
+    return "(-%s)" % sub()
+
+
 def strategy(tier):
+    bomb_case = st.fixed_dictionaries({"kind": st.just("bomb"), "expr": _bomb_expr(), "pathway": st.sampled_from(["math", "math", "auto"]), "timeout": st.just(0.2),
+                                       "tools": st.just(["lookup"]), "family": st.just("generated"), "entry": st.sampled_from(["metabolize", "metabolize", "digest_glucose"])})
+    return st.integers(0, 199).flatmap(lambda k: bomb_case if k == 37 else _expr_case())      # about 1 case in 200 is a sandboxed bomb (0.3 s each)
+
+
+def _expr_case():
     expr_case = st.fixed_dictionaries({
         "kind": st.just("expr"),
         "expr": st.one_of(_RAW, _expr(1), _expr(2), _expr(2), _expr(3), _expr(3), _expr(3), _expr(4), _expr(4)),
@@ -241,6 +293,28 @@ def _scan_bombs(tier):
     return out
 
 
+def _call_bombs(tier):
+    """every allow-listed callable (read from the live table) with arguments that are cheap to write and expensive to honour: huge and hugely
+    negative second arguments, huge first arguments, and - for the callables that take one - another allow-listed callable as `key=`"""
+    from operon_ai.organelles.mitochondria import Mitochondria
+    names = sorted(k for k, v in Mitochondria.SAFE_FUNCTIONS.items() if callable(v))
+    out = []
+    for f in names:
+        out += ["%s(10**7)" % f, "%s(-(10**7))" % f, "%s(1, 10**9)" % f, "%s(1, -(10**9))" % f, "%s(10**6, 10**6)" % f, "%s([10**6])" % f,
+                "%s(2.5, 10**9)" % f, "%s('9' * 9000)" % f]
+    for f in ("max", "min", "sum", "round", "int", "float", "abs", "len", "bool"):
+        if f not in names:
+            continue
+        for g in names:
+            out.append("%s([10**6], key=%s)" % (f, g))
+            if tier != "quick":
+                out.append("%s([10**6, 2], key=%s)" % (f, g))
+                out.append("%s(10**6, 3, key=%s)" % (f, g))
+    if tier == "quick":
+        out = [b for b in out if "key=" not in b or b.startswith(("max(", "min("))]
+    return out
+
+
 def enumerate_cases(tier):
     yield {"kind": "table"}
     base = {"kind": "expr", "tools": ["lookup"], "silent": True, "max_ros": 1000.0, "entry": "metabolize"}
@@ -272,6 +346,25 @@ def enumerate_cases(tier):
         yield {"kind": "bomb", "expr": b, "pathway": "auto" if i % 3 else "math", "timeout": 0.2, "tools": ["lookup"]}
     for b in _scan_bombs(tier):
         yield {"kind": "bomb", "expr": b, "pathway": "auto", "timeout": 0.2, "tools": ["lookup"], "family": "text-scan"}
+    # nested repetition: cheap to build (a million references to one big list), ruinous to traverse - comparisons and aggregates over it
+    nested = ["[[0]*10**6]*10**6", "([0]*10**6,)*10**6", "('a'*10**6,)*10**6", "[[[0]*1000]*1000]*1000", "[(1, 2)*10**5]*10**6", "[[0]*10**6]*10**5"]
+    for nb in nested:
+        forms = ["%s == %s" % (nb, nb), "(%s) < (%s)" % (nb, nb), "max(%s)" % nb, "min(%s)" % nb, "sum(%s, [])" % nb if nb.startswith("[") else "sum(%s, ())" % nb,
+                 "len(%s)" % nb, "bool(%s)" % nb, "(%s) != []" % nb]
+        for k, ex in enumerate(forms if tier != "quick" else forms[:5]):
+            yield {"kind": "bomb", "expr": ex, "pathway": "math" if k % 2 == 0 else "auto", "timeout": 0.2, "tools": ["lookup"], "family": "nested-repetition"}
+    # a function-valued argument (key=...) applied to many elements multiplies the cost of one allowed call
+    keyed = ["max([5000]*10**6, key=factorial)", "min([4999]*10**5, key=factorial)", "max([5000]*10**4, key=factorial)", "min((5000,)*10**4, key=factorial)",
+             "max([[5000]*100]*100, key=max)", "max([5000]*3000 + [4999]*3000, key=factorial)", "max([4000]*10**4, 1, key=factorial)"]
+    for ex in keyed if tier != "quick" else keyed[:4]:
+        yield {"kind": "bomb", "expr": ex, "pathway": "math", "timeout": 0.2, "tools": ["lookup"], "family": "keyed-aggregate"}
+    for b in _call_bombs(tier):
+        yield {"kind": "bomb", "expr": b, "pathway": "math", "timeout": 0.2, "tools": ["lookup"], "family": "allow-listed-call"}
+    # results that are cheap to compute but awkward to hand back (ints beyond the interpreter's int->str limit, long sequences): every entry point
+    for ex in ("2**20000", "9**5000", "10**4300", "-(10**4400)", "factorial(3000)", "[10**5000]", "(10**5000, 1)", "max(10**5000, 1)", "'ab' * 900000", "[0] * 900000", "abs(-(7**6000))"):
+        for entry in ("metabolize", "digest_glucose", "agent"):
+            yield dict(base, expr=ex, pathway="math" if entry == "metabolize" else "auto", entry=entry)
+        yield {"kind": "bomb", "expr": ex, "pathway": "auto", "timeout": 0.2, "tools": ["lookup"], "family": "big-result", "entry": "digest_glucose"}
 
 
 # ---------------------------------------------------------------------------
@@ -438,6 +531,43 @@ def judge(case):
     return _judge_expr(case)
 
 
+_WRAPPER_NAMES = {"math", "round", "isinstance", "int", "float", "bool", "abs", "len", "ValueError", "OverflowError", "TypeError", "operator",
+                  "factorial", "pow", "bit_length", "max", "min"}
+_WRAPPER_GRID = [(), (0,), (1,), (5,), (-3,), (2.567,), (2.5,), (True,), ("7",), (10,), (2.567, 1), (1234, -2), (2, 10), (2.0, 0.5), (7, 2), (-7, 2), ([1, 2],), (None,)]
+
+
+def _bounded_wrapper_problem(name, obj, vetted):
+    """A table entry may be a *bounded wrapper* of a vetted function: a plain function of the engine's own module named _bounded_<f> that refers
+    to nothing but arithmetic helpers and limits, and on a grid of ordinary arguments returns exactly what <f> returns (or raises what <f> raises),
+    the only liberty being a ValueError refusal.  Returns None if `obj` qualifies, else the reason."""
+    import inspect
+    if not inspect.isfunction(obj) or obj.__module__ != "operon_ai.organelles.mitochondria" or not obj.__name__.startswith("_bounded_"):
+        return "not a _bounded_ wrapper of the engine's module"
+    base = obj.__name__[len("_bounded_"):]
+    ref = getattr(math, base, None) or getattr(builtins, base, None)
+    if ref is None or not any(ref is v for v in vetted):
+        return "wraps %r, which is not a vetted function" % base
+    extra = {n for n in obj.__code__.co_names if not (n in _WRAPPER_NAMES or n.startswith("MAX_"))}
+    if extra:
+        return "refers to %s" % sorted(extra)
+    for args in _WRAPPER_GRID:
+        try:
+            want = ("value", ref(*args))
+        except Exception as e:  # noqa: BLE001
+            want = ("raise", type(e).__name__)
+        try:
+            got = ("value", obj(*args))
+        except ValueError as e:
+            got = ("raise", "ValueError")
+            if want[0] == "value":
+                continue            # a refusal is the wrapper's one liberty
+        except Exception as e:  # noqa: BLE001
+            got = ("raise", type(e).__name__)
+        if got != want or (got[0] == "value" and type(got[1]) is not type(want[1])):
+            return "differs from %s on %r: %r instead of %r" % (base, args, got, want)
+    return None
+
+
 def _judge_table():
     from operon_ai.organelles.mitochondria import Mitochondria
     out = Outcome()
@@ -450,7 +580,11 @@ def _judge_table():
             continue
         if any(obj is v for v in vetted):
             continue
-        out.fail("table:unvetted-entry:%s" % name, "function table entry %r -> %r is not a vetted pure function or constant" % (name, obj), None)
+        why = _bounded_wrapper_problem(name, obj, vetted)
+        if why is None:
+            out.label("table:bounded-wrapper")
+            continue
+        out.fail("table:unvetted-entry:%s" % name, "function table entry %r -> %r is not a vetted pure function or constant (%s)" % (name, obj, why), None)
     import operator
     ok_ops = {operator.add, operator.sub, operator.mul, operator.truediv, operator.floordiv, operator.mod, operator.pow, operator.neg, operator.pos,
               operator.eq, operator.ne, operator.lt, operator.le, operator.gt, operator.ge}
@@ -561,7 +695,7 @@ def _judge_expr(case):
         out.nontrivial = True
     if not result_success:
         return out
-    d["value"] = repr(value)[:120]
+    d["value"] = _srepr(value)[:120]
     if case["entry"] == "agent":
         # the agent only forwards text after 'calculate'; judge what it handed to the engine
         import re
@@ -589,7 +723,8 @@ def _judge_expr(case):
         return out
     from operon_ai.organelles.mitochondria import Mitochondria as M
     vetted = _vetted()
-    env = {k: v for k, v in M.SAFE_FUNCTIONS.items() if (isinstance(v, (int, float)) and not isinstance(v, bool)) or any(v is w for w in vetted)}
+    env = {k: v for k, v in M.SAFE_FUNCTIONS.items() if (isinstance(v, (int, float)) and not isinstance(v, bool)) or any(v is w for w in vetted)
+           or (callable(v) and _bounded_wrapper_problem(k, v, vetted) is None)}
     if used == MetabolicPathway.KREBS_CYCLE:
         env.update({"true": True, "false": False})
     try:
@@ -598,7 +733,7 @@ def _judge_expr(case):
         what = str(f)
         bucket = what.split(":")[0] if ":" in what else what
         out.fail("confinement:%s" % (what if bucket in ("name", "call", "op", "cmp") and len(what) < 40 else bucket),
-                 "engine reported success (%s) for an expression that uses a forbidden construct: %s" % (repr(value)[:60], what), d)
+                 "engine reported success (%s) for an expression that uses a forbidden construct: %s" % (_srepr(value)[:60], what), d)
     except _TooBig:
         out.label("reference-skipped-too-big")
     except RecursionError:
@@ -625,8 +760,12 @@ for t in cfg["tools"]:
 pw = {"auto": None, "math": MetabolicPathway.GLYCOLYSIS}[cfg["pathway"]]
 res = "raised"
 try:
-    r = m.metabolize(cfg["expr"], pw)
-    res = "success" if r.success else "failure"
+    if cfg.get("entry") == "digest_glucose":
+        m.digest_glucose(cfg["expr"])
+        res = "success"
+    else:
+        r = m.metabolize(cfg["expr"], pw)
+        res = "success" if r.success else "failure"
 except BaseException as e:
     res = "raised:" + type(e).__name__
 sys.__stdout__.write(json.dumps({"result": res}))
@@ -634,12 +773,19 @@ sys.__stdout__.flush()
 """
 
 
+def _srepr(v):
+    try:
+        return repr(v)
+    except ValueError:          # an int beyond the interpreter's int->str digit limit
+        return "<%s, unprintable>" % type(v).__name__
+
+
 def _judge_bomb(case):
     out = Outcome()
     out.nontrivial = True
     timeout = case["timeout"]
     cpu = int(20 * timeout + 2)
-    cfg = {"expr": case["expr"], "pathway": case["pathway"], "timeout": timeout, "tools": case["tools"], "repo": REPO, "cpu": cpu}
+    cfg = {"expr": case["expr"], "pathway": case["pathway"], "timeout": timeout, "tools": case["tools"], "repo": REPO, "cpu": cpu, "entry": case.get("entry", "metabolize")}
     env = dict(os.environ, PYTHONHASHSEED="0", PYTHONDONTWRITEBYTECODE="1")
     try:
         p = subprocess.run([sys.executable, "-c", _CHILD], input=json.dumps(cfg), capture_output=True, text=True, timeout=cpu * 15 + 60, env=env)
